@@ -415,6 +415,15 @@ class Sym:
                         if alts:
                             for f_ in set.intersection(*alts):
                                 add(f_)
+            # `let Some(x) = helper(..)? else { .. }`: the Ok(Some) / Ok(None) outcome of a
+            # crate-local Result<Option<_>> helper: what held on every path with that outcome
+            if c[0] == "discr" and not isinstance(v, bool):
+                t_o = _tested_outcome(c, v)
+                if t_o is not None and t_o[1] in ("Ok(Some)", "Ok(None)"):
+                    alts = call_alternatives(getattr(fn, "prog", None), t_o[0], t_o[1], "outcome")
+                    if alts:
+                        for f_ in set.intersection(*alts):
+                            add(f_)
             # a match on the enum a crate-local selector returned (`match select_kernel(ext)`):
             # what held on every path of the selector that builds that variant
             if c[0] == "discr" and (isinstance(v, int) and not isinstance(v, bool)
@@ -525,6 +534,42 @@ def project(e):
 
 
 _ALT_BUSY = set()
+
+
+def _tested_outcome(cond, val):
+    """(call expression, outcome) when the branch fact tests the Ok/Err/Some/None outcome of a
+    call result: discr(call), discr(branch(call)), discr((branch(call) as Continue).0),
+    discr((call as Ok).0)"""
+    if cond[0] != "discr" or isinstance(val, bool):
+        return None
+    x = cond[1]
+    while isinstance(x, tuple) and x and x[0] in ("ref", "deref"):
+        x = x[1]
+    payload = False
+    if x[0] == "field" and x[2] in ("0", 0) and isinstance(x[1], tuple) and x[1][0] == "variant" \
+            and x[1][2] in ("Continue", "Ok"):
+        payload = True
+        x = x[1][1]
+    tried = False
+    if isinstance(x, tuple) and x and x[0] == "callat" and x[2] == "branch" and x[3]:
+        tried = True
+        x = x[3][0]
+    if not (isinstance(x, tuple) and x and x[0] in ("call", "callat")):
+        return None
+
+    def pick(zero, one):
+        if val == 0 or (isinstance(val, tuple) and val[0] == "not" and 1 in val[1] and 0 not in val[1]):
+            return zero
+        if val == 1 or (isinstance(val, tuple) and val[0] == "not" and 0 in val[1] and 1 not in val[1]):
+            return one
+        return None
+    if payload:
+        o = pick("Ok(None)", "Ok(Some)")            # Option: None = 0, Some = 1
+    elif tried:
+        o = pick("Ok", "Err")                       # ControlFlow: Continue = 0, Break = 1
+    else:
+        o = None        # the type decides (Result: Ok = 0; Option: None = 0): see the caller
+    return (x, o, val)
 
 
 def _outcomes(r):
@@ -663,7 +708,17 @@ def call_alternatives(prog, e, val, want="bool"):
                         count[0] = 10 ** 6
                         return
                     if val in poss or (val == "Ok" and ("Ok(None)" in poss or "Ok(Some)" in poss)):
-                        alts.append(fs)
+                        inner_ = None
+                        if val in ("Ok(Some)", "Ok") and r[0] in ("call", "callat") and \
+                                (r[1] if r[0] == "call" else r[2]) == "map":
+                            # res.map(Some) is Ok(Some) exactly when res is Ok: its success paths
+                            a_ = (r[2] if r[0] == "call" else r[3])
+                            inner_ = call_alternatives(prog, _subst(a_[0], mapping), True, "ok") if a_ else None
+                        if inner_:
+                            for ia_ in inner_:
+                                alts.append(fs | ia_)
+                        else:
+                            alts.append(fs)
                     return
                 if want == "variant":
                     # val = the discriminant found (int) or ('not', (v1, ..)): only paths that
